@@ -294,7 +294,8 @@ impl WorkerMonitor {
     pub fn on_all_workers_exited(&self) {
         #[cfg(mmtk_verif)]
         crate::verif::sync_point("all_exited.before_try_lock", 0);
-        let mut sync = self.sync.try_lock().unwrap();
+        // A mutator may be inside `make_request` (holding `sync`) at this moment: wait for it.
+        let mut sync = self.sync.lock().unwrap();
         sync.goals.on_current_goal_completed();
         #[cfg(mmtk_verif)]
         crate::verif::emit(|| "\"ev\":\"AllExited\"".to_string());
